@@ -53,6 +53,30 @@ Qed.
 Theorem C25_encipher_total : forall r : Runestone, exists s, encipher r = Ok s.
 Proof. exact encipher_total. Qed.
 
+(* WF is tight: every runestone that decipher returns (from any transaction) is
+   well-formed for that transaction and has its edicts already ordered by id ... *)
+Theorem C25_decipher_wf : forall (outs : list (list N)) (r : Runestone),
+  len outs <= U32_MAX ->
+  decipher outs = Ok (Some (ARunestone r)) ->
+  wf_runestone (len outs) r = true /\ sort_edicts (edicts r) = edicts r.
+Proof. exact decipher_wf. Qed.
+
+(* ... hence enciphering a deciphered runestone into a transaction with the same
+   number of outputs and deciphering again returns it unchanged. *)
+Theorem C25_reencipher : forall (outs pre post : list (list N)) (r : Runestone),
+  len outs <= U32_MAX ->
+  decipher outs = Ok (Some (ARunestone r)) ->
+  len pre + 1 + len post = len outs ->
+  Forall (fun s => ~ starts_with_magic s) pre ->
+  exists s, encipher r = Ok s /\ decipher (pre ++ s :: post) = Ok (Some (ARunestone r)).
+Proof.
+  intros outs pre post r Hn Hd Hl Hpre.
+  destruct (decipher_wf outs r Hn Hd) as [Hwf Hs]. rewrite <- Hl in Hwf.
+  destruct (decipher_encipher r pre post Hwf Hpre) as (s & He & Hdd).
+  exists s. split; [exact He|]. rewrite Hdd. unfold sorted_runestone. rewrite Hs.
+  destruct r; reflexivity.
+Qed.
+
 (* ---- 2. totality ----
    Deciphering any transaction (arbitrary output script bytes) with at most
    u32::MAX outputs never panics (and the model's loop fuel is never exhausted);
@@ -171,6 +195,8 @@ Qed.
 Print Assumptions C25_decipher_encipher.
 Print Assumptions C25_sort_edicts_spec.
 Print Assumptions C25_encipher_total.
+Print Assumptions C25_decipher_wf.
+Print Assumptions C25_reencipher.
 Print Assumptions C25_decipher_total.
 Print Assumptions C25_flaw_order.
 Print Assumptions C25_message_flaw_first.
